@@ -729,6 +729,10 @@ ssize_t ZCK_PUBLIC_API zck_get_chunk_comp_data(zckChunk *idx, char *dst,
     if(!seek_data(zck, zck_get_chunk_start(idx), SEEK_SET))
         return -1;
 
+    /* A buffer larger than the chunk must not pull in the chunks behind it */
+    if(dst_size > (size_t)zck_get_chunk_comp_size(idx))
+        dst_size = zck_get_chunk_comp_size(idx);
+
     /* Return read chunk */
     return read_data(zck, dst, dst_size);
 }
@@ -781,5 +785,8 @@ ssize_t ZCK_PUBLIC_API zck_get_chunk_data(zckChunk *idx, char *dst,
         return -1;
     zck->comp.data_idx = idx;
     zck->comp.data_eof = false;
+    /* A buffer larger than the chunk must not pull in the chunks behind it */
+    if(dst_size > (size_t)zck_get_chunk_size(idx))
+        dst_size = zck_get_chunk_size(idx);
     return comp_read(zck, dst, dst_size, 1);
 }
